@@ -126,6 +126,7 @@ func solve(query string, tmpdir, name string, timeoutS int, all bool) solveResul
 	go func() { wg.Wait(); close(ch) }()
 	res := solveResult{status: "unknown", all: map[string]string{}}
 	var firstDef *r
+	agree := 0
 	for x := range ch {
 		x := x
 		res.all[x.name] = x.st
@@ -139,6 +140,13 @@ func solve(query string, tmpdir, name string, timeoutS int, all bool) solveResul
 				res.status = "disagree"
 				res.out = fmt.Sprintf("%s says %s, %s says %s", firstDef.name, firstDef.st, x.name, x.st)
 				return res
+			} else if all {
+				// two independent runners agree: the cross-check has its answer; the slower configurations (which on
+				// bit-vector goals mostly run into their timeout) are not waited for
+				agree++
+				if agree >= 1 {
+					cancel()
+				}
 			}
 		} else if firstDef == nil {
 			res.out += fmt.Sprintf("[%s: %s] %s\n", x.name, x.st, firstLines(x.out, 3))
